@@ -26,6 +26,12 @@ fn tx_edits(tx: &Transaction) -> Vec<(bool, &'static str, Transaction)> {
         e(false, "in.sequence", &|t| t.input[k].sequence = elements::Sequence(t.input[k].sequence.0 ^ 1));
         e(false, "in.issuance.entropy", &|t| { if t.input[k].has_issuance() { t.input[k].asset_issuance.asset_entropy[0] ^= 1; } });
         e(false, "in.issuance.amount", &|t| { if t.input[k].has_issuance() { t.input[k].asset_issuance.amount = elements::confidential::Value::Explicit(123456); } });
+        e(false, "in.issuance.keys", &|t| { if t.input[k].has_issuance() { t.input[k].asset_issuance.inflation_keys = match t.input[k].asset_issuance.inflation_keys { elements::confidential::Value::Explicit(v) => elements::confidential::Value::Explicit(v ^ 1), _ => elements::confidential::Value::Explicit(654321) }; } });
+        e(false, "in.issuance.nonce", &|t| { if t.input[k].has_issuance() { let mut b = [0u8; 32]; b.copy_from_slice(t.input[k].asset_issuance.asset_blinding_nonce.as_ref()); b[31] ^= 1; if let Ok(tw) = elements::secp256k1_zkp::Tweak::from_slice(&b) { t.input[k].asset_issuance.asset_blinding_nonce = tw; } } });
+        // an issuance appearing on an input that had none: by its amount only, and by its inflation keys only
+        e(false, "in.issuance.new-amount-only", &|t| { if !t.input[k].has_issuance() && t.input[k].previous_output.vout != 0xffff_ffff { t.input[k].asset_issuance.amount = elements::confidential::Value::Explicit(5); } });
+        e(false, "in.issuance.new-keys-only", &|t| { if !t.input[k].has_issuance() && t.input[k].previous_output.vout != 0xffff_ffff { t.input[k].asset_issuance.inflation_keys = elements::confidential::Value::Explicit(7); } });
+        e(true, "in.wit.amount_rangeproof", &|t| { let w = &mut t.input[k].witness; std::mem::swap(&mut w.amount_rangeproof, &mut w.inflation_keys_rangeproof); });
         e(true, "in.wit.script", &|t| t.input[k].witness.script_witness.push(vec![1, 2, 3]));
         e(true, "in.wit.pegin", &|t| t.input[k].witness.pegin_witness.push(vec![9]));
         e(true, "in.wit.clear", &|t| t.input[k].witness = TxInWitness::default());
@@ -72,6 +78,10 @@ pub fn eval(case: &str) -> Out {
                 let mut fail = None;
                 if txid != sha256d::Hash::hash(&serialize(&strip(&tx))).to_byte_array() { fail = Some("txid-not-stripped-hash|txid is not the double-SHA256 of the witness-stripped serialization".to_string()); }
                 else if wtxid != sha256d::Hash::hash(&serialize(&tx)).to_byte_array() { fail = Some("wtxid-not-full-hash|wtxid is not the double-SHA256 of the full serialization".to_string()); }
+                // independent of the crate's own encoder: the reference encoder (txgen::ref_tx, written from the Elements wire format) applied to the
+                // decoded value — catches an encoder/decoder pair that is self-consistent but no longer the consensus serialization
+                else if tx_is_canonical(&tx) && wtxid != sha256d::Hash::hash(&ref_tx(&tx)).to_byte_array() { fail = Some("wtxid-not-consensus-hash|wtxid is not the double-SHA256 of the consensus serialization (reference encoder) of the decoded transaction".to_string()); }
+                else if tx_is_canonical(&tx) && txid != sha256d::Hash::hash(&ref_tx(&strip(&tx))).to_byte_array() { fail = Some("txid-not-consensus-hash|txid is not the double-SHA256 of the witness-stripped consensus serialization (reference encoder)".to_string()); }
                 else if (wtxid == txid) != !tx.has_witness() { fail = Some("wtxid-eq-txid|wtxid equals txid but not exactly when there is no witness".to_string()); }
                 else {
                     for (witness_only, name, t2) in tx_edits(&tx) {
